@@ -418,4 +418,19 @@ def handleReadStatus : Handler := fun i o => do
   return { model := m, agree := m == o, spec := spec, specModel := specM, nontrivial := true,
            tags := ["read:" ++ outStatus] }
 
+
+/-! ### pollcache — cancellation while the default caching cluster reader is listing -/
+
+/-- domain `pollcache`: the real StatusPoller (engine + CachingClusterReader + default status readers) whose context ends while a
+LIST of the cluster reader's Sync is in flight, or between two polls.  The engine model (`Poll`) says a context error from
+Sync ends the run silently; the caching reader hands the LIST's context error through unchanged (whatever wraps it).  So the
+expected observation is fixed: channel closed, no error event. -/
+def handlePollCache : Handler := fun i o => do
+  let blockAt ← jint i "blockAt"
+  let m := Json.mkObj [("closed", true), ("errorEvents", (0 : Nat)), ("panic", Json.null)]
+  let spec := jboolD o "closed" false && (jint o "errorEvents").toOption == some 0 && (jopt o "panic") == some Json.null
+  return { model := m, agree := m == o, spec := spec, specModel := true, nontrivial := true,
+           tags := [s!"pollcache:{(jstr i "end").toOption.getD "?"}", s!"pollcache:{(jstr i "wrap").toOption.getD "?"}",
+                    if blockAt < 0 then "pollcache:between-polls" else "pollcache:during-list"] }
+
 end CliUtils.Drv.C17
